@@ -3,9 +3,10 @@ CONSTANTS
   Vals = {0, 8, 16, 48, 80, 84}
   Ramps = {0, 16, 24, 32}
   Jitters = {0}
-  Shapes = {"ramp", "speed", "none"}
+  Shapes = {"ramp", "speed", "none", "writable", "readable"}
 INVARIANT TypeOK
 INVARIANT Storage
+INVARIANT WritableFollows
 PROPERTY BusyOnChange
 PROPERTY BusyUntilArrival
 PROPERTY BusyAfterTick
